@@ -58,10 +58,8 @@ def gen_cases(rng, tier):
 
 
 def _obs(o, case):
-    cont_ok = True
-    ce = (o.get("cont_err") or "").lower()
-    if "not found" in ce or "missing" in ce or "dangling" in ce or "chunk" in ce:
-        cont_ok = False
+    # the continued series must complete and produce the expected table (harness checks the rows)
+    cont_ok = not (o.get("cont_err") or "")
     ok_gc = not o.get("gc_err")
     return "{| o_kept := %s; o_fp_equal := %s; o_post_closed := %s; o_acked := %s; o_cont_ok := %s |}" % (
         cq_bool(o["kept"] and ok_gc), cq_bool(o["fp_equal"]), cq_bool(o["post_closed"]), cq_bool(o["acked"]), cq_bool(cont_ok))
@@ -138,13 +136,6 @@ def neighbours(case, rng):
 
 
 def match_known(finding, case, out):
-    """Key `dolt_gc:merge_state.pending_commit_hashes`: the only failure is that the revert series cannot be continued
-    after the collection, in the recipe that deletes the branch holding the pending commit."""
-    o = out.get("obs")
-    if not o or finding.get("key") != "dolt_gc:merge_state.pending_commit_hashes":
-        return False
-    if not case.get("dropx") or case.get("cont") != "revert":
-        return False
-    if not (o.get("kept") and o.get("fp_equal") and o.get("post_closed") and o.get("acked")) or o.get("gc_err"):
-        return False
-    return "target commit not found" in (o.get("cont_err") or "")
+    # F2 was repaired (WalkAddrs reports merge_state.pending_commit_hashes); nothing is suppressed.  The recipe
+    # {"dropx": true, "cont": "revert"} (first case of gen_cases) stays as an always-run regression case.
+    return False
